@@ -63,6 +63,7 @@ CL_G2 = "G2_gcxs_getitem_enumerates_selected_columns"
 CL_V1 = "V1_var_std_broadcast_intermediate_nnz_times_extent"
 CL_T1 = "T1_dot_coo_coo_resets_column_buffer_per_row"
 CL_E1 = "E1_scalar_operand_broadcast_to_full_shape_2pow60"
+CL_U1 = "gcxs_unsigned_indices_after_widening"
 
 # the smallest input of each finding class, as a stand-alone program (for the reader of a violation record)
 MINIMAL_REPRO = {
@@ -76,6 +77,9 @@ MINIMAL_REPRO = {
     CL_T1: "import numpy as np, sparse; a = sparse.COO(np.array([[0],[0]]), np.array([1]), shape=(10**6, 1000)); "
            "b = sparse.COO(np.array([[0],[0]]), np.array([1]), shape=(1000, 10**6)); a @ b   "
            "# _dot_coo_coo executes next_[:] = -1 (10^6 entries) for each of the 10^6 result rows: minutes",
+    CL_U1: "import numpy as np, sparse; x = sparse.COO(np.array([[19],[83757],[85972]], dtype=np.int32), np.array([5]), "
+           "shape=(100, 10**5, 10**5)); g = x.asformat('gcxs', compressed_axes=(0,)); print(g.indices.dtype); g[19, 83757, 85972]   "
+           "# _from_coo widens the int32 index dtype with np.min_scalar_type(10**10) = uint64: IndexError here, TypeError in g.sum(axis=2)",
     CL_E1: "import numpy as np, sparse; sparse.COO(np.array([[5],[7]]), np.array([1]), shape=(2**31, 2**31)) * 2   "
            "# ValueError: array is too big (np.broadcast_to(2, shape) in _Elemwise._get_func_coords_data); same for 2^30 x 2^30",
 }
@@ -101,7 +105,7 @@ def _warm():
     rng = random.Random(1)
     for case in gen_cases("tiny", rng, Scale(tiny=True)):
         try:
-            arrs = [vlib.build_array(s) for s in case["inputs"]]
+            arrs = [vlib.build_array(s, idx_dtype=s.get("idx_dtype")) for s in case["inputs"]]
             if "steps" in case:
                 _run_steps(case, arrs)
                 continue
@@ -273,6 +277,11 @@ def _run_steps(case, arrs):
         try:
             if st["call"][0] == "add_prev":
                 r = arrs[0] + results[st["call"][1]]
+            elif st["call"][0] == "on_prev":          # the call applied to the RESULT of an earlier step
+                prev = results[st["call"][1]]
+                if isinstance(prev, BaseException):
+                    raise prev
+                r = _apply(st["call"][2], [prev])
             else:
                 r = _apply(st["call"], arrs)
         except BaseException as ex:  # noqa: BLE001
@@ -281,7 +290,13 @@ def _run_steps(case, arrs):
         results.append(r)
         try:
             o = r if isinstance(r, BaseException) else _post(st.get("post"), r, arrs)
+            import sparse
+            big_indptr = isinstance(o, sparse.GCXS) and o.ndim >= 2 and len(o.indptr) > 5000
+            if big_indptr:
+                o = o.tocoo()           # an index pointer with > 5000 entries is not shipped to Coq as a literal
             o = o if isinstance(o, dict) else vlib.plain(o)
+            if big_indptr:
+                o["gcxs_large_indptr_compared_as_coo"] = True
         except BaseException as ex:  # noqa: BLE001
             o = {"k": "other", "repr": f"POST FAILED {type(ex).__name__}: {ex}"[:200]}
         if isinstance(r, BaseException):
@@ -307,7 +322,7 @@ def impl_case(case):
         out = None
         try:
             try:
-                arrs = [vlib.build_array(s) for s in case["inputs"]]
+                arrs = [vlib.build_array(s, idx_dtype=s.get("idx_dtype")) for s in case["inputs"]]
             except BaseException as ex:  # noqa: BLE001
                 out = {"k": "other", "repr": f"BUILD FAILED {type(ex).__name__}: {ex}"[:200], "build_failed": True}
                 arrs = None
@@ -555,6 +570,12 @@ class Scale:
             self.GPROD = (100, 10 ** 7)
             self.SLOW = (10 ** 6, 1000)
             self.col = 40
+            # narrow index dtypes: every axis fits the dtype, the linearised uncompressed extent does not
+            self.NARROW = [((100, 10 ** 5, 10 ** 5), "int32", [0]), ((300, 30000, 30000), "int16", [0]), ((4, 20, 20), "uint8", [0]),
+                           ((40, 50, 10 ** 5, 10 ** 5), "int32", [0, 1]), ((120, 120, 120, 120), "int8", [1]),
+                           ((10 ** 5, 10 ** 5, 10 ** 5), "int32", [0])]
+            # long slices on an axis of extent 2^40 (few or no stored elements)
+            self.LONG = [(2 ** 40,), (2 ** 40, 1000), (1000, 2 ** 40), (2 ** 40, 100, 100), (2 ** 20, 2 ** 40)]
         else:
             self.S3 = (6, 5, 7)
             self.P3 = (5, 7, 3)
@@ -573,6 +594,9 @@ class Scale:
             self.GPROD = (5, 30)
             self.SLOW = None
             self.col = 4
+            self.NARROW = [((5, 6, 7), "int32", [0]), ((5, 6, 7), "int16", [0]), ((4, 6, 5), "uint8", [0]), ((3, 2, 5, 6), "int32", [0, 1]),
+                           ((3, 4, 3, 4), "int8", [1]), ((6, 5, 7), "int32", [0])]
+            self.LONG = [(40,), (40, 10), (10, 40), (40, 5, 5), (8, 40)]
 
 
 def pick_nnz(rng, tier, big_ok=True):
@@ -983,6 +1007,58 @@ def gen_cases(tier, rng, sc=None):
         b = rand_spec(rng, sc.BC[0], pick_nnz(rng, tier, big_ok=False))
         cases.append(seq("squeeze", [b], ["squeeze", None], ("reshape", [d for d in sc.BC[0] if d != 1], IN0), False))
 
+    # ---------------------------------------------------------------- format conversion with narrow index dtypes
+    # COO coordinates of a narrow integer dtype (every axis fits, the linearised uncompressed / compressed extent does
+    # not): conversion to GCXS without an explicit idx_dtype, the raw arrays, the round trip and element lookups
+    for _ in range(n_rep):
+        for shape, idt, cax in sc.NARROW:
+            nnz_ = min(pick_nnz(rng, tier, big_ok=False), 100)
+            x = dict(rand_spec(rng, shape, nnz_), idx_dtype=idt)
+            mask = [i in cax for i in range(len(shape))]
+            pos = rng.choice(x["coords"])
+            free = [rng.randrange(d) for d in shape]
+            lookup = lambda p_: ("reshape", [], ("get", [("s", q, q + 1, None) for q in p_], IN0))  # noqa: E731
+            nd = len(shape)
+            last = [i == nd - 1 for i in range(nd)]
+            rows_ = prod(shape[a] for a in cax)
+            cols_ = prod(shape[a] for a in range(len(shape)) if a not in cax)
+            # the widened index dtype is np.min_scalar_type(...): unsigned; uint64 indices break lookups and reductions
+            u1 = CL_U1 if max(rows_, cols_) >= 2 ** 32 else None
+            kept_ = prod(shape[:-1])
+            steps = [{"call": ["asformat", "gcxs", cax], "expr": IN0, "rkind": ("gcxs", mask) if rows_ <= 5000 else "sparse"},
+                     {"call": ["on_prev", 0, ["asformat", "coo", None]], "expr": IN0, "rkind": "sparse"},
+                     {"call": ["on_prev", 0, ["getitem", list(pos)]], "expr": lookup(pos), "rkind": "scalar", "expect_clause": u1},
+                     {"call": ["on_prev", 0, ["getitem", list(free)]], "expr": lookup(free), "rkind": "scalar", "expect_clause": u1},
+                     {"call": ["on_prev", 0, ["asformat", "dok", None]], "expr": IN0, "rkind": "sparse"}]
+            if kept_ <= 10 ** 7:        # (a reduction of a GCXS that keeps two long axes is finding G1)
+                steps.append({"call": ["on_prev", 0, ["reduce", "sum", [nd - 1]]], "expr": ("sum", last, IN0), "rkind": "sparse",
+                              "expect_clause": u1})
+            cases.append({"name": f"seq:coo[{idt}]{list(shape)}->gcxs{cax}", "op": "seq:narrow_to_gcxs", "family": "sequence", "fmt": "coo",
+                          "inputs": [x], "steps": steps, "expect_clause": None})
+            # the same array given directly as a GCXS operand (built by the same conversion), then used
+            g = dict(x, format="gcxs", caxes=cax)
+            cases.append(mk_case(f"gcxs[{idt}]{cax}->coo", "convert", [g], ["asformat", "coo", None], IN0))
+            cases.append(mk_case(f"gcxs[{idt}]:x[{pos}]", "index", [g], ["getitem", list(pos)], lookup(pos), "scalar", expect_clause=u1))
+
+    # ---------------------------------------------------------------- long slices on an axis of extent 2^40, 0..2 stored elements
+    # (partial slices, and slices followed by another index, so that they are not pruned as full trailing slices)
+    for _ in range(n_rep):
+        for shape in sc.LONG:
+            nd = len(shape)
+            la = max(range(nd), key=lambda i: shape[i])       # the long axis
+            d = shape[la]
+            for nnz_ in (0, 1, 2):
+                for fmt in (["coo", "dok"] if (nnz_ == 1 and not few) or tiny else ["coo"]):
+                    x = rand_spec(rng, shape, nnz_, fmt)
+                    c0 = x["coords"][0] if nnz_ else [rng.randrange(e) for e in shape]
+                    longs = [("s", 3, d // 2, None), ("s", 1, d - 1, 1), ("s", d - 2, 0, -1), ("s", c0[la] % 7, None, 7)]
+                    for sl in (longs if tiny or not few else rng.sample(longs, 2)):
+                        for other in ("full", "int"):
+                            idx = [sl if i == la else (FULL if other == "full" else c0[i]) for i in range(nd)]
+                            if other == "int" and nd == 1:
+                                continue
+                            cases.append(mk_case(f"{fmt}:x[{idx}]", "index-long", [x], ["getitem", idx], ("get", idx, IN0)))
+
     if tier == "quick":
         # a few operands with thousands of stored elements (the reference is quadratic in Coq for zip / reductions)
         big = rand_spec(rng, S3, 3000, small={0: 50})
@@ -1056,7 +1132,7 @@ def campaign(build, tier, seed, report, budget=1):
             done.append(st["call"])
             sub = {"name": c["name"] + f" step {k}: {st['call']}", "op": c["op"] if k == 0 else c["op"] + ">" + st["call"][0],
                    "family": "sequence", "fmt": c["fmt"], "inputs": c["inputs"], "call": st["call"], "expr": st["expr"],
-                   "rkind": st["rkind"], "post": st.get("post"), "expect_clause": None, "sequence": list(done), "seq_case": c}
+                   "rkind": st["rkind"], "post": st.get("post"), "expect_clause": st.get("expect_clause"), "sequence": list(done), "seq_case": c}
             flat_c.append(sub)
             flat_r.append(rs[k] if rs is not None else r)      # the whole scenario failed / timed out: every step inherits it
     cases, res = flat_c, flat_r
